@@ -916,6 +916,7 @@ impl Engine for C07 {
                 let span = 7 * p.entries.len() as u64 + 6;
                 let mut lp = LazyPlan::draw(&mut z, span, 2 * p.entries.len() as u64);
                 lp.odd_names = z.chance(25);
+                lp.renumber = z.chance(25);
                 p.lazy = Some(lp);
             }
         }
@@ -1154,7 +1155,7 @@ impl Engine for C07 {
                         rekey(&mut v);
                         rekey(&mut t0_sorted);
                     }
-                    if lp.names_order != 0 || lp.odd_names {
+                    if lp.names_order != 0 || lp.odd_names || lp.renumber {
                         v.sort_by(|a, b| a.0.cmp(&b.0));
                         t0_sorted.sort_by(|a, b| a.0.cmp(&b.0));
                     }
